@@ -188,6 +188,9 @@ func fnName(fn *ssa.Function) string {
 	if fn.Parent() != nil {
 		return fnName(fn.Parent()) + "$" + strings.TrimPrefix(fn.Name(), fn.Parent().Name()+"$")
 	}
+	if a, ok := fnAlias.Load(fn); ok {
+		return a.(string)
+	}
 	if recv := fn.Signature.Recv(); recv != nil {
 		t := recv.Type()
 		if p, ok := t.(*types.Pointer); ok {
@@ -327,7 +330,16 @@ func (c *Ctx) calleesIn(fn *ssa.Function, site ssa.CallInstruction) []*ssa.Funct
 func (c *Ctx) reach(roots []*ssa.Function) map[*ssa.Function]bool {
 	seen := map[*ssa.Function]bool{}
 	var work []*ssa.Function
-	push := func(f *ssa.Function) {
+	var push func(f *ssa.Function)
+	push = func(f *ssa.Function) {
+		if f != nil && !seen[f] && f.Pkg == nil && f.Synthetic != "" && f.Blocks != nil {
+			// a bound-method wrapper or thunk: it stands for the method it calls
+			seen[f] = true
+			for _, g := range unwrapBound(f)[1:] {
+				push(g)
+			}
+			return
+		}
 		if f == nil || seen[f] || !c.inRoot(f) || f.Blocks == nil {
 			return
 		}
